@@ -100,8 +100,30 @@ def validateDedicatedMemberAttrs (ctys : List (Option TypePath)) (instrName : Op
   dedicatedLoop (ctys.filterMap id) typePaths
     (instrName.map fun n tp => "Dedicated #[" ++ n ++ "(...)] instruction for type " ++ tp.pathStr ++ " is already defined.") es
 
+/-- the diagnostic for a positional nested field that no instruction names for the counterpart -/
+def nestedNameMsg (f : ParentChildField) (attr : TraitAttrCore) : String :=
+  let s := f.thisMember.str
+  "Member " ++ s ++ " should have an instruction that specifies corresponding field name of type " ++ attr.ty.pathStr ++
+    ", e.g. #[parent(" ++ (if s == "0" then "" else "..., ") ++ "[map(field_name)] " ++ s ++ ", ...)]"
+
+/-- the `#[parent(..)]` list in force for a counterpart: the one dedicated to it, else the default one -/
+def parentInForce (parentAttrs : List ParentAttr) (ty : TypePath) : Option ParentAttr :=
+  (parentAttrs.find? fun p => p.childFields.isSome && (match p.containerTy with | some t => t == ty | none => false))
+    <|> (parentAttrs.find? fun p => p.childFields.isSome && p.containerTy.isNone)
+
+/-- a positional nested field needs, for an Into conversion to a struct-shaped counterpart, an instruction of that kind
+    naming the counterpart's field (fix 2814c57) -/
+def nestedNamePass (namedRootStruct : Bool) (parentAttrs : List ParentAttr) (es : Errors) (x : TraitAttrCore × Kind) : Errors :=
+  let structShaped := x.1.typeHint == .struct || (x.1.typeHint == .unspecified && namedRootStruct)
+  match structShaped, (parentInForce parentAttrs x.1.ty).bind (·.childFields) with
+  | true, some fields =>
+    (fields.filter fun f => !f.namedFields && (match f.getForKind x.2 with | some a => a.thatMember.isNone | none => true)).foldl
+      (fun es f => es.insert (nestedNameMsg f x.1)) es
+  | _, _ => es
+
 /-- `validate_parent_attrs` -/
 def validateParentAttrs (namedRootStruct : Bool) (parentAttrs : List ParentAttr) (byKind : List (TraitAttrCore × Kind)) (errors : Errors) : Errors :=
+  let errors := (byKind.filter fun (x, k) => !k.isFrom && x.quickReturn.isNone).foldl (nestedNamePass namedRootStruct parentAttrs) errors
   parentAttrs.foldl (fun es pa =>
     let applies (x : TraitAttrCore) := pa.containerTy.isNone || isSomeEq pa.containerTy x.ty
     let es := (byKind.filter fun (x, k) => !k.isFrom && applies x).foldl (fun es (attr, _) =>
@@ -184,10 +206,20 @@ def childPass (structAttrs : DataTypeAttrs) (typePaths intoTypePaths : List Type
     if intoTypePaths.contains tp then checkChildErrors ca structAttrs tp es else es
   | none => intoTypePaths.foldl (fun es tp => checkChildErrors ca structAttrs tp es) es
 
+/-- is the nested struct a `#[child]` member is written into given `as {}` in `#[child_parents]`? (fix 43d0b08) -/
+def nestedStructShaped (input : Struct) (ty : TypePath) (field : Field) : Bool :=
+  match field.attrs.child ty with
+  | some ca =>
+    match (input.attrs.childParentsAttr ty).bind (fun x => x.childParents.find? (fun cd => cd.fieldPathStr == ca.childPath.strs.getLast?.getD "")) with
+    | some cd => cd.typeHint == .struct
+    | none => false
+  | none => false
+
 /-- third loop of `validate_fields`, one (trait instruction, kind): tuple struct mapped `as {}` -/
 def namePass (input : Struct) (dta : TraitAttrCore) (k : Kind) (es : Errors) : Errors :=
-  if dta.quickReturn.isNone && dta.typeHint == .struct then
+  if dta.quickReturn.isNone then
     input.fields.foldl (fun es field =>
+      if dta.typeHint != .struct && !nestedStructShaped input dta.ty field then es else
       memberNameCheck field dta.ty k
         ("Member " ++ field.member.str ++ " should have member trait instruction with field name" ++
           (if k.isFrom then " or an action" else "") ++ ", that corresponds to #[" ++ fallibleKindName k false ++
